@@ -1,5 +1,6 @@
 (* Props/C11.v -- C11: built-in generators (@if @each @count @string @label @hex @parse ..) are exact. *)
 From Az65 Require Import Base Token Expr ExprParse Linker Asm Arch FileMan Full FullFacts.
+From Az65 Require Import IfFacts.
 
 (* @each X, {t1..tn} body @endeach : one replay of the body per element, in order, each with the
    element spliced into slot 0 -- for any number of elements and any body *)
@@ -37,3 +38,23 @@ Theorem C11_entropy_fresh :
             name = entropy_name (f_entropy s) /\ f_entropy s' = (f_entropy s + 1)%N.
 Proof. exact entropy_fresh. Qed.
 Print Assumptions C11_entropy_fresh.
+
+(* @if: a false conditional skips a balanced body (any tokens, nested conditionals stepped over whole) and its own
+   @endif -- nothing more, nothing less; one that is never closed is an error *)
+Theorem C11_skip_consumes_exactly_the_conditional :
+  forall b rest, balanced b -> skip_toks 1 (b ++ TDir DEndIf :: rest) = Some rest.
+Proof. exact skip_consumes_exactly_the_conditional. Qed.
+Print Assumptions C11_skip_consumes_exactly_the_conditional.
+
+Theorem C11_skip_unclosed : forall b, balanced b -> skip_toks 1 b = None.
+Proof. exact skip_unclosed. Qed.
+Print Assumptions C11_skip_unclosed.
+
+(* ... and the pipeline's skip loop does exactly that on whatever tokens the pump delivers (files, includes, macro
+   replays, generated tokens alike) *)
+Theorem C11_false_if_skips_its_body :
+  forall budget s b rest s' fuel,
+    delivers budget s (b ++ TDir DEndIf :: rest) s' -> balanced b -> (length (b ++ TDir DEndIf :: rest) < fuel)%nat ->
+    exists s2, f_skip_if budget fuel 1 s = Ok s2 /\ delivers budget s2 rest s'.
+Proof. exact false_if_skips_its_body. Qed.
+Print Assumptions C11_false_if_skips_its_body.
